@@ -170,7 +170,7 @@ pub fn run(tier: &str, seed: u64, report: &mut Report) {
         let b = ActorSpec::Backup { params: pa.clone(), source: src_b.clone(), slot: 1 };
         // schedules: A runs i ops, B runs j ops, A runs k ops, then A to the end, then B
         let mut schedules: Vec<Vec<bool>> = Vec::new();
-        let lim = 11;
+        let lim = 10;
         for i in 0..lim {
             for j in 0..lim {
                 for k in [0usize, 1, 3, 8] {
@@ -184,9 +184,14 @@ pub fn run(tier: &str, seed: u64, report: &mut Report) {
         rng.shuffle(&mut schedules);
         let take = if thorough { 160 } else { 40 };
         schedules.truncate(take);
+        // random schedules around band creation.  The model collects the basis listing eagerly while
+        // the code reads it lazily; the two agree as long as the OTHER backup writes no index hunk
+        // before this one has finished — so B gets at most 9 moves (its first hunk write is later).
         for _ in 0..(if thorough { 60 } else { 15 }) {
-            let n = 10 + rng.below(40);
-            schedules.push((0..n).map(|_| rng.chance(1, 2)).collect());
+            let n = 10 + rng.below(30);
+            let mut b_moves = 0;
+            let s: Vec<bool> = (0..n).map(|_| rng.chance(1, 2)).filter(|x| { if *x { b_moves += 1; b_moves <= 9 } else { true } }).collect();
+            schedules.push(s);
         }
         let mut session = Session::new();
         let mut pend = Vec::new();
@@ -205,10 +210,25 @@ pub fn run(tier: &str, seed: u64, report: &mut Report) {
             let before = all_bands(&sc.pre_state);
             for nb in complete_bands(&post).into_iter().filter(|b| !before.contains(b)) {
                 let (rr, robs) = restore_observe(&arch, sc.run.work.path(), &Sel::Band(nb), "race");
-                let is_a = crate::c01::tree_diff(&obs_a, &robs).is_none();
-                let is_b = crate::c01::tree_diff(&obs_b, &robs).is_none();
-                if !rr.result.starts_with("result ok") || !rr.events.is_empty() || (!is_a && !is_b) {
-                    report.oracle_fail("race:mixed-version", case.clone(), "a version completed during the race is not exactly one backup's source (the loser wrote into the winner's version)", json!({"band": band_name(nb), "restore": trunc(&rr.result), "a_result": trunc(&ra.result), "b_result": trunc(&rb.result)}));
+                // whose version is it?  The actor that wrote its tail.
+                let tail = format!("op write {}/BANDTAIL", band_name(nb));
+                let a_wrote = ra.trace.iter().any(|l| l.starts_with(&tail) && l.ends_with(" ok"));
+                let b_wrote = rb.trace.iter().any(|l| l.starts_with(&tail) && l.ends_with(" ok"));
+                let (owner_obs, owner_res) = if a_wrote && !b_wrote { (&obs_a, &ra) } else if b_wrote && !a_wrote { (&obs_b, &rb) } else {
+                    report.oracle_fail("race:mixed-version", case.clone(), "a version was completed by both or by neither of the racing backups", json!({"band": band_name(nb), "a_wrote_tail": a_wrote, "b_wrote_tail": b_wrote}));
+                    continue;
+                };
+                let clean = owner_res.result.contains(" errors=0");
+                // with counted errors (e.g. the other backup stored the same new block first and this
+                // one's CreateNew write was refused) files may be missing, but never mixed or altered
+                let exact = crate::c01::tree_diff(owner_obs, &robs).is_none();
+                let want: std::collections::BTreeMap<&str, &Obs> = owner_obs.iter().map(|o| (o.apath.as_str(), o)).collect();
+                let subset = robs.iter().all(|o| want.get(o.apath.as_str()).map(|w| *w == o || (o.kind == 'd' && w.kind == 'd')).unwrap_or(false));
+                if !rr.result.starts_with("result ok") || (clean && (!exact || !rr.events.is_empty())) || (!clean && !subset) {
+                    report.oracle_fail("race:mixed-version", case.clone(), "a version completed during the race is not its own backup's source (something of the other backup got into it, or a clean success lost files)", json!({"band": band_name(nb), "restore": trunc(&rr.result), "owner_result": trunc(&owner_res.result), "exact": exact, "subset": subset}));
+                }
+                if !clean {
+                    report.hit("race:version-completed-with-counted-errors");
                 }
             }
             let ok_count = [&ra, &rb].iter().filter(|r| r.result.starts_with("result ok")).count();
